@@ -40,6 +40,8 @@ func keyVariants(r *h.Rand, k string) []string {
 	out := []string{k + "x", k + "\x00", k + "_", k + k, "x" + k, strings.ToUpper(k), " " + k}
 	if len(k) > 0 {
 		out = append(out, k[:len(k)-1], k[1:], k[:len(k)/2])
+		// other spellings of the same words: first letter flipped, all lower, snake <-> camel
+		out = append(out, strings.ToLower(k[:1])+k[1:], strings.ToUpper(k[:1])+k[1:], strings.ToLower(k), strings.ReplaceAll(k, "_", ""))
 		for n := 0; n < 6; n++ {
 			b := []byte(k)
 			b[r.Intn(len(b))] = c15Alphabet[r.Intn(len(c15Alphabet))]
